@@ -124,6 +124,7 @@ type Cfg struct {
 	NoNormPath bool `json:"noNormPath"` // client.WithDisablePathNormalizing
 	Proxy      bool `json:"proxy"`      // requests go through an HTTP proxy (absolute-form targets)
 	ReadSize   int  `json:"readSize"`   // streaming: size of the reads on the response body stream (0: 4096)
+	ReuseResp  bool `json:"reuseResp"`  // the Response object of the previous exchange is handed to Do as it is (false: Response.Reset() first)
 }
 
 type Case struct {
@@ -508,8 +509,8 @@ func errClass(err error) string {
 	return "other"
 }
 
-func (w *worker) buildRequest(p *Prog, cfg *Cfg) *protocol.Request {
-	req := protocol.AcquireRequest()
+func (w *worker) buildRequest(req *protocol.Request, p *Prog, cfg *Cfg) {
+	req.Reset()
 	if cfg.NoNormHdr {
 		req.Header.DisableNormalizing()
 	}
@@ -549,7 +550,6 @@ func (w *worker) buildRequest(p *Prog, cfg *Cfg) *protocol.Request {
 			}
 		}
 	}
-	return req
 }
 
 func (w *worker) run(c *Case) {
@@ -603,9 +603,12 @@ func (w *worker) run(c *Case) {
 	if c.Cfg.Proxy {
 		cl.SetProxy(protocol.ProxyURI(protocol.ParseURI("http://" + proxyAddr)))
 	}
+	// one Request and one Response object serve the whole sequence (the usual way to use the client): Request.Reset
+	// between exchanges, the Response is handed to Do as it is
+	req, resp := protocol.AcquireRequest(), protocol.AcquireResponse()
 	for i, e := range c.Xs {
 		w.x = i + 1
-		w.exchange(cl, c, e)
+		w.exchange(cl, c, e, req, resp)
 	}
 	for _, pc := range w.conns {
 		pc.mute()
@@ -614,15 +617,17 @@ func (w *worker) run(c *Case) {
 	tr.Emit("End", nil)
 }
 
-func (w *worker) exchange(cl *client.Client, c *Case, e *Exchange) {
+func (w *worker) exchange(cl *client.Client, c *Case, e *Exchange, req *protocol.Request, resp *protocol.Response) {
 	x := w.x
 	defer func() {
 		if r := recover(); r != nil {
 			w.ev("Panic", map[string]interface{}{"x": x, "msg": fmt.Sprint(r)})
 		}
 	}()
-	req := w.buildRequest(&e.prog, &c.Cfg)
-	resp := protocol.AcquireResponse()
+	w.buildRequest(req, &e.prog, &c.Cfg)
+	if !c.Cfg.ReuseResp {
+		resp.Reset()
+	}
 	w.used = 0
 	err := cl.Do(context.Background(), req, resp)
 	rec := map[string]interface{}{"x": x, "err": errClass(err), "errText": "", "status": 0, "fields": []map[string]string{}, "names": []string{},
@@ -696,8 +701,6 @@ func (w *worker) exchange(cl *client.Client, c *Case, e *Exchange) {
 	}
 	rec["buffered"] = buffered()
 	w.ev("Returned", rec)
-	protocol.ReleaseRequest(req)
-	protocol.ReleaseResponse(resp)
 }
 
 // ---------------------------------------------------------------- fragmentations
